@@ -61,6 +61,7 @@ type Runner struct {
 	verifyOnIS     int                   // >0: when the next InstallSnapshot request goes out, call VerifyLeader on its sender that many ms (minus one) later
 	verifyAt       int64                 // virtual ms at which that call is due (0: none)
 	verifyOn       string                // the sender
+	busyFSM        [16]atomic.Int64      // per server: its FSM takes >= 4 ms per call until this instant (macro snapcfg)
 	quietFlag      atomic.Bool           // mirror of quiet, readable without W.Mu (FSM goroutines)
 	slowISResp     int                   // id of the InstallSnapshot exchange whose response is delayed until slowISUntil
 	slowISUntil    int64
@@ -126,15 +127,18 @@ func (r *Runner) nodeOpts(i int) sim.NodeOpts {
 	if os.Getenv("DEBUGSRV") == r.ids[i] {
 		logw = os.Stdout
 	}
-	var slow func() time.Duration
+	var d time.Duration
 	if i < len(p.ApplyMs) && p.ApplyMs[i] > 0 {
-		d := time.Duration(p.ApplyMs[i]) * time.Millisecond
-		slow = func() time.Duration {
-			if r.quietFlag.Load() {
-				return 0 // the convergence bounds of the quiet phase are stated for an FSM that keeps up
-			}
-			return d
+		d = time.Duration(p.ApplyMs[i]) * time.Millisecond
+	}
+	slow := func() time.Duration {
+		if r.quietFlag.Load() {
+			return 0 // the convergence bounds of the quiet phase are stated for an FSM that keeps up
 		}
+		if until := r.busyFSM[i].Load(); until > 0 && r.W.Now() < until {
+			return max(d, 4*time.Millisecond) // a macro keeps this state machine busy for a moment
+		}
+		return d
 	}
 	return sim.NodeOpts{
 		ApplyDelayFn: slow,
